@@ -260,12 +260,22 @@ def run_real(sb_dir, case, variant='v0', cwd_mode=None, loc='+loc+', keep_inputs
     old_cwd = os.getcwd()
     outmode = case.get('output', 'abs')
     workdir = os.path.join(base, '+work+'); os.makedirs(workdir, exist_ok=True)
+    if cwd_mode is None and case.get('run_from') == 'parent': cwd_mode = lambda b, ai, w: os.path.dirname(ai[0])      # started in the directory that holds the input
     decoy = os.path.join(base, '+decoy+'); os.makedirs(decoy, exist_ok=True)
     with open(os.path.join(decoy, 'keep.txt'), 'w') as f: f.write('decoy')
     abs_inputs = []
     for k, inp in enumerate(inputs):
         parent = os.path.join(base, loc, '+i%d+' % k)
         p = os.path.join(parent, inp['name'])
+        if inp.get('via_link') and inp['kind'] in ('dir', 'file') and not os.path.lexists(p):
+            # the path the user names is a symbolic link; what it points to has another name.  Titles, module names and the default prefix
+            # come from the name that was given, not from the link's target
+            target = os.path.join(base, loc, '+real%d+' % k, 'zz_target_%d%s' % (k, os.path.splitext(inp['name'])[1] if inp['kind'] == 'file' else ''))
+            os.makedirs(os.path.dirname(target), exist_ok=True); os.makedirs(parent, exist_ok=True)
+            if inp['kind'] == 'dir': materialize(target, inp['children'], os.path.join(base, '+vendor_q7+'), inp.get('hidden_links', ()))
+            else:
+                with open(target, 'wb') as f: f.write(inp['content'].encode('utf-8'))
+            os.symlink(target, p)
         if keep_inputs and os.path.exists(p): pass       # second run over the very same files (mtimes untouched)
         elif inp['kind'] == 'dir': materialize(p, inp['children'], os.path.join(base, '+vendor_q7+'), inp.get('hidden_links', ()))
         elif inp['kind'] == 'file':
